@@ -96,7 +96,7 @@ PROPS = {
                      "and later macros incl. cycles, names passed as arguments, uses inside procedures) x use sites with register / number / bracketed-memory / label "
                      "arguments: output of the real assembler vs the model's expansion; non-trivial = accepted program"
                      " L3 macroref: the same program with every macro use written out by hand by the generator's reference expander (simultaneous whole-word substitution, nested and by-name uses, every register in both cases in every operand role): identical code lists or both refused."),
-    "C14": dict(modules=["Emu8086.Props.C14"], runs=[("l3", "errors"), ("l4", "diag")], gen=["Arch", "ILiterals", "PPGrammar"],
+    "C14": dict(modules=["Emu8086.Props.C14", "Emu8086.Props.C14Range"], runs=[("l3", "errors"), ("l4", "diag")], gen=["Arch", "ILiterals", "PPGrammar"],
                 rule="a valid program x every applicable single semantic mutation (undefined / data-label jump target, duplicate label / procedure, data operand or "
                      "OFFSET on a code label or unknown name, call of a non-procedure, constants out of range by one, operand size mismatch, two memory operands, "
                      "unsupported instructions / interrupts, missing or data-typed start) + boundary values of every constant range; the real binary must print a "
